@@ -478,10 +478,23 @@ def evaluate_concurrent(ctx, case):
         reqs.append({'p': 'C07', 'k': 'judge', 'stream': hx(streams[name]), 'outs': [hx(o) for o in outs],
                      'flags': [line_flags(o, True) for o in outs]})
     reqs.append({'p': 'C07', 'k': 'judge_events', 'outs': [hx(o) for o in res['B']['lines']], 'subscribed': [hx(x) for x in B_SUBSCRIBED]})
-    ja, jb, je = ctx.driver.batch(reqs)
-    for a in (ja, jb, je):
+    reqs.append({'p': 'C07', 'k': 'neutral', 'stream': hx(streams['A'])})
+    ja, jb, je, na = ctx.driver.batch(reqs)
+    for a in (ja, jb, je, na):
         if 'driver_error' in a:
             raise RuntimeError(a)
+    ji = None
+    if all(na['neutral']):
+        # nothing A sends is carried out by a module: B must be answered as if A (all of it left out) had never connected
+        alone = run_session({'kind': 'real'}, [[hx(streams['B'])]])[0]
+        ji = ctx.driver.batch([{'p': 'C07', 'k': 'judge_indep', 'conns': [
+            {'stream': hx(streams['A']), 'keep': [False] * len(na['neutral']),
+             'all': [hx(canon_frame(o)) for o in res['A']['lines']], 'kept': []},
+            {'stream': hx(streams['B']), 'keep': [True] * len(B_SCRIPT),
+             'all': [hx(canon_frame(o)) for o in res['B']['lines']], 'kept': [hx(canon_frame(o)) for o in alone['outs']]}]}])[0]
+        if 'driver_error' in ji:
+            raise RuntimeError(ji)
+        res['B_alone'] = alone['outs']
     bad = None
     if res['errors']:
         bad = {'clause': 'thread_died', 'errors': res['errors']}
@@ -491,14 +504,17 @@ def evaluate_concurrent(ctx, case):
         bad = dict(jb['bad'], conn='B')
     elif je['bad'] is not None:
         bad = {'clause': 'no_leak', 'i': je['bad'], 'conn': 'B'}
-    return {'bad': bad, 'res': res, 'case': case}
+    elif ji is not None and ji['bad'] is not None:
+        bad = dict(ji['bad'], conn='AB'[ji['bad']['conn']])
+    return {'bad': bad, 'res': res, 'case': case, 'compared_with_B_alone': ji is not None}
 
 
 def gen_concurrent(rng):
     lines = []
+    probes = rng.random() < 0.4      # A asks for nothing a module carries out: B is then compared with B alone on a fresh node
     for _ in range(rng.choice([2, 3, 4, 6])):
-        ln = gen_request(rng, True)
-        if rng.random() < 0.4:
+        ln = gen_probe(rng) if probes else gen_request(rng, True)
+        if rng.random() < (0.15 if probes else 0.4):
             ln = mutate(rng, ln)
         lines.append(ln)
     if rng.random() < 0.7:
@@ -1302,6 +1318,8 @@ def run(ctx):
         r = ev['res']
         nupd_a = sum(1 for ln in r['A']['lines'] if ln.startswith(b'update '))
         res.count('concurrent.A-got-events' if nupd_a else 'concurrent.A-no-events')
+        if ev['compared_with_B_alone']:
+            res.count('concurrent.A-all-neutral:B-compared-with-B-alone')
         if nupd_a and len(r['A']['lines']) > nupd_a:
             res.nontriv(case)
         if ev['bad'] is not None:
@@ -1310,7 +1328,8 @@ def run(ctx):
                 continue
             seen_sigs.add(sig)
             res.violations.append({'sig': sig, 'what': f"{ev['bad']}: concurrent case {case}; A received {r['A']['lines'][:8]}; "
-                                                       f"B received {r['B']['lines'][:8]}",
+                                                       f"B received {r['B']['lines'][:8]}"
+                                                       + (f"; B alone on a fresh node receives {r['B_alone'][:12]}" if 'B_alone' in r else ''),
                                    'case': case, 'detail': {'verdict': ev['bad'], 'steps': r['steps']}})
     return res
 
@@ -1323,6 +1342,10 @@ def replay(ctx, rp):
         for name in 'AB':
             print(f'{name} received:')
             for ln in ev['res'][name]['lines']:
+                print('   ', ln[:160])
+        if 'B_alone' in ev['res']:
+            print('B alone on a fresh node receives:')
+            for ln in ev['res']['B_alone']:
                 print('   ', ln[:160])
         print('thread errors:', ev['res']['errors'], 'steps:', ev['res']['steps'])
         print('judge  :', ev['bad'])
